@@ -277,12 +277,18 @@ pub fn gen_tx(r: &mut Rng, focus: Focus) -> tir::Tx {
     }
     // directives
     let mut adhoc = vec![];
-    let n_w = match focus { Focus::C08 => r.below(3), _ => if r.chance(1, 5) { 1 } else { 0 } } as usize;
+    let n_w = match focus { Focus::C08 => r.below(4), _ => if r.chance(1, 5) { 1 } else { 0 } } as usize;
     for i in 0..n_w {
+        // C08: key and script credentials side by side (the ledger ranks script credentials first,
+        // the bytes of the account rank them last)
+        let mut account = stake_addr(0x70 + (3 - i as u8));
+        if focus == Focus::C08 && r.chance(1, 2) {
+            account[0] = 0xF0;
+        }
         adhoc.push(tir::AdHocDirective {
             name: "withdrawal".into(),
             data: HashMap::from([
-                ("credential".to_string(), E::Address(stake_addr(0x70 + (2 - i as u8)))),
+                ("credential".to_string(), E::Address(account)),
                 ("amount".to_string(), if focus == Focus::C02 { int_expr(r, focus, 1) } else { E::Number(r.below(1_000_000) as i128) }),
                 ("redeemer".to_string(), if r.chance(2, 3) { const_data(r, 1) } else { E::None }),
             ]),
@@ -618,6 +624,26 @@ pub fn run(ctx: &mut Ctx, focus: Focus) {
             }
         }
         ctx.meta.insert("stage_runs".into(), serde_json::json!(stage_runs));
+    }
+    if focus == Focus::C10 {
+        // certificates are a set field the model does not cover: the same directive twice must be listed once
+        for n_same in [1usize, 2, 3] {
+            let cert = || tir::AdHocDirective {
+                name: "vote_delegation_certificate".to_string(),
+                data: HashMap::from([("stake".to_string(), tir::Expression::Address(stake_addr(0x71))), ("drep".to_string(), tir::Expression::Bytes(vec![9u8; 28]))]),
+            };
+            let tx = tir::Tx { fees: tir::Expression::Number(170000), references: vec![], inputs: vec![], outputs: vec![], validity: None, mints: vec![], burns: vec![],
+                adhoc: (0..n_same).map(|_| cert()).collect(), collateral: vec![], signers: None, metadata: vec![] };
+            let out = compile_const(&tx, crate::c06::test_pparams(4310, false));
+            *hist.entry(format!("certificates_probe_kind_{}", out.kind)).or_default() += 1;
+            if out.kind == 0 {
+                let listed = minicbor::decode::<conway::Tx>(&out.payload).ok().and_then(|t| t.transaction_body.certificates.as_ref().map(|c| c.len())).unwrap_or(0);
+                if listed != 1 {
+                    impl_violations.push(serde_json::json!({"index": -1, "ids": [308], "what": "the certificates field lists one certificate more than once",
+                        "directives": n_same, "listed": listed, "payload_hex": hex::encode(&out.payload)}));
+                }
+            }
+        }
     }
     ctx.meta.insert("impl_violations".into(), serde_json::json!(impl_violations));
     ctx.write_cases(id, "From Tx3 Require Import Base Assets Tir Reduce PlutusData Compile Compile_check.", "case", "run", &texts, 60);
